@@ -119,6 +119,8 @@ type runner struct {
 	prefix   string
 	panics   []string
 	diag     []string
+	tokText  []string
+	tokSeen  map[string]bool
 	adj      []int64 // adjusted part durations (ticks of the leading track) reported during the current Write
 	served   map[string]bool
 	segSize  map[string]int // listed segment uri -> bytes (C16 bandwidth)
@@ -275,6 +277,23 @@ func RunScript(w *trace.W, idx int, sc Script, opts Options) error {
 		ev, ok := r.write(st)
 		r.observe(ev, opts)
 		w.Emit(ev)
+		if opts.Tokens {
+			if rec := r.getNB("index.m3u8"); rec != nil && rec.Code == 200 {
+				r.tokText = append(r.tokText, rec.Body.String())
+			}
+			for _, txt := range r.tokText {
+				toks := TokensOf(txt)
+				key := fmt.Sprint(toks)
+				if r.tokSeen == nil {
+					r.tokSeen = map[string]bool{}
+				}
+				if !r.tokSeen[key] {
+					r.tokSeen[key] = true
+					w.Emit(trace.M{"ev": "tok", "tokens": toks})
+				}
+			}
+			r.tokText = nil
+		}
 		if !ok {
 			break // the statement covers all-successful sequences; an error ends the trace (C18 judges it)
 		}
@@ -299,6 +318,7 @@ type Options struct {
 	Probe  bool // C05: probe every known URI after every write
 	MV     bool // C16: multivariant playlist
 	NoEmit bool // skip decoding of segments (long C04/C18 traces)
+	Tokens bool // C15: log every distinct playlist served as a token sequence ("tok" lines)
 }
 
 func gcd(a, b int64) int64 {
@@ -737,6 +757,9 @@ func (r *runner) observe(ev trace.M, opts Options) {
 			pls = append(pls, trace.M{"ok": -1, "st": rec.Code})
 			media = append(media, nil)
 			continue
+		}
+		if opts.Tokens {
+			r.tokText = append(r.tokText, rec.Body.String())
 		}
 		pl, err := m3u8.ReadMedia(rec.Body.String())
 		if err != nil {
@@ -1207,3 +1230,26 @@ func (bgctx) Err() error                    { return nil }
 func (bgctx) Value(interface{}) interface{} { return nil }
 
 var _ = fmt.Sprintf
+
+// TokensOf projects playlist text to the token records of spec/M3U8.tla (tag, attribute names, lexical classes).
+func TokensOf(text string) []trace.M {
+	out := []trace.M{}
+	for _, ln := range m3u8.Tokenize(text) {
+		switch ln.Kind {
+		case "uri":
+			out = append(out, trace.M{"t": "URI", "a": []string{}})
+		case "tag":
+			names, classes := []string{}, []string{}
+			for _, a := range ln.Attrs {
+				names = append(names, a.Name)
+				classes = append(classes, a.Class)
+			}
+			tk := trace.M{"t": ln.Tag, "a": names, "c": classes, "aerr": b2i(ln.AttrErr != "")}
+			if ln.Value != "" && ln.Attrs == nil && ln.AttrErr == "" {
+				tk["v"] = m3u8.SimpleClass(ln.Tag, ln.Value)
+			}
+			out = append(out, tk)
+		}
+	}
+	return out
+}
